@@ -5,7 +5,7 @@ import z3
 
 from mirsym import engine
 from mirsym.interp import to_z3
-from . import facerule as FR, geomrules as GR, C03
+from . import facerule as FR, geomrules as GR, C03, oracle as OR
 
 LEVEL = 'other'
 EXPLANATION = ('From the MIR, decided by z3: the face recorded by the real VoronoiFace/FaceIntegrator/VoronoiFaceIntegral::init carries normal = '
@@ -36,7 +36,13 @@ def outward_normal(run, funcs):
                     if bad:
                         run.violation('C04 face normal: ' + bad, engine.save_replay('C04', pl))
                     else:
-                        run.suspect.append('C04 face init: counterexample does not reproduce natively')
+                        # the counterexample may need a particular configuration (e.g. a generator exactly on the plane): complete its discrete part
+                        # (dimension, wall / neighbour / periodic plane) to inputs of the public API, including generators on walls
+                        d = {'OneD': 1, 'TwoD': 2, 'ThreeD': 3}[dim]
+                        extra = OR.wall_scenarios(d, ss) + OR.wall_scenarios(d, ss, mask=[True, False])
+                        if not OR.confirm_family('C04', run, 'C04 face init[%s, right=%s, shift=%s]: stored normal is not minus the inward plane normal' % (dim, rs, ss),
+                                                 d, ss, None, (0, 1), pids=('C04',), extra=extra):
+                            run.suspect.append('C04 face init: counterexample does not reproduce natively')
 
 
 def check_face_normal_native(p, profile='debug'):
@@ -76,6 +82,8 @@ def replay(path):
     d = json.load(open(path))
     if d['kind'] == 'face_rule_pair':
         return C03.replay(path)
+    if d['kind'] == 'scenario':
+        return OR.replay(d)
     if d['kind'] == 'face_normal':
         bad = check_face_normal_native(d)
         print(bad)
